@@ -25,6 +25,8 @@ pub enum DataDesc {
     Const { byte: u8, len: usize },
     /// explicit bytes (small)
     Explicit(Vec<u8>),
+    /// random bytes with one embedded run of a repeated short pattern (padding, zero / space runs inside ordinary data)
+    Padded { seed: u64, len: usize, pad_at: usize, pad_len: usize, pattern: Vec<u8> },
 }
 
 impl DataDesc {
@@ -34,7 +36,8 @@ impl DataDesc {
             | DataDesc::Alphabet { len, .. }
             | DataDesc::Periodic { len, .. }
             | DataDesc::Text { len, .. }
-            | DataDesc::Const { len, .. } => *len,
+            | DataDesc::Const { len, .. }
+            | DataDesc::Padded { len, .. } => *len,
             DataDesc::Explicit(v) => v.len(),
         }
     }
@@ -45,7 +48,8 @@ impl DataDesc {
             | DataDesc::Alphabet { len, .. }
             | DataDesc::Periodic { len, .. }
             | DataDesc::Text { len, .. }
-            | DataDesc::Const { len, .. } => *len = n,
+            | DataDesc::Const { len, .. }
+            | DataDesc::Padded { len, .. } => *len = n,
             DataDesc::Explicit(v) => v.truncate(n),
         }
         d
@@ -87,6 +91,17 @@ impl DataDesc {
             }
             DataDesc::Const { byte, len } => vec![*byte; *len],
             DataDesc::Explicit(v) => v.clone(),
+            DataDesc::Padded { seed, len, pad_at, pad_len, pattern } => {
+                let mut v = vec![0u8; *len];
+                Rng::new(*seed).fill(&mut v);
+                let a = (*pad_at).min(*len);
+                let b = (a + *pad_len).min(*len);
+                let p = if pattern.is_empty() { &[0u8][..] } else { &pattern[..] };
+                for (i, x) in v[a..b].iter_mut().enumerate() {
+                    *x = p[i % p.len()];
+                }
+                v
+            }
         }
     }
     pub fn to_json(&self) -> Value {
@@ -101,6 +116,9 @@ impl DataDesc {
             DataDesc::Text { seed, len } => json!({"class":"text","seed":seed.to_string(),"len":len}),
             DataDesc::Const { byte, len } => json!({"class":"const","byte":byte,"len":len}),
             DataDesc::Explicit(v) => json!({"class":"explicit","hex":hex(v)}),
+            DataDesc::Padded { seed, len, pad_at, pad_len, pattern } => {
+                json!({"class":"padded","seed":seed.to_string(),"len":len,"pad_at":pad_at,"pad_len":pad_len,"pattern":hex(pattern)})
+            }
         }
     }
     pub fn from_json(v: &Value) -> Result<DataDesc, String> {
@@ -116,6 +134,13 @@ impl DataDesc {
             "text" => DataDesc::Text { seed: seed()?, len },
             "const" => DataDesc::Const { byte: v["byte"].as_u64().ok_or("byte")? as u8, len },
             "explicit" => DataDesc::Explicit(unhex(v["hex"].as_str().ok_or("hex")?)?),
+            "padded" => DataDesc::Padded {
+                seed: seed()?,
+                len,
+                pad_at: v["pad_at"].as_u64().ok_or("pad_at")? as usize,
+                pad_len: v["pad_len"].as_u64().ok_or("pad_len")? as usize,
+                pattern: unhex(v["pattern"].as_str().ok_or("pattern")?)?,
+            },
             _ => return Err(format!("unknown data class {class}")),
         })
     }
@@ -135,6 +160,16 @@ impl DataDesc {
                 }
             }
             DataDesc::Explicit(_) => {}
+            DataDesc::Padded { seed, len, pad_at, pad_len, pattern } => {
+                for pl in [pad_len / 2, pad_len.saturating_sub(1)] {
+                    if pl < *pad_len {
+                        out.push(DataDesc::Padded { seed: *seed, len: *len, pad_at: *pad_at, pad_len: pl, pattern: pattern.clone() });
+                    }
+                }
+                if *pad_at != 0 {
+                    out.push(DataDesc::Padded { seed: *seed, len: *len, pad_at: 0, pad_len: *pad_len, pattern: pattern.clone() });
+                }
+            }
             _ => {
                 out.push(DataDesc::Const { byte: 0x41, len: n });
                 if n <= 64 {
@@ -148,6 +183,28 @@ impl DataDesc {
 
 /// Draws a data descriptor. `lens` decides the length distribution.
 pub fn draw_data(r: &mut Rng, len: usize) -> DataDesc {
+    if len >= 64 && r.chance(if len >= 32768 { 40 } else { 8 }, 100) {
+        // ordinary data with one long run of padding inside
+        let pattern = match r.below(5) {
+            0 => vec![0u8],
+            1 => vec![b' '],
+            2 => vec![0xa4, 0x0e],
+            3 => vec![*r.pick(&[b' ', b'0', b'A', b'a', 0xff, b'\n', b'.', b'-', b'=', b'*', b'_', 0x90, 0xcc])],
+            _ => {
+                let mut p = vec![0u8; r.range(2, 4) as usize];
+                r.fill(&mut p);
+                p
+            }
+        };
+        let pad_len = match r.below(4) {
+            0 => r.range(8, 200) as usize,
+            1 => r.range(200, 5000) as usize,
+            _ => r.range((len / 2) as u64, len as u64) as usize,
+        }
+        .min(len);
+        let pad_at = r.below((len - pad_len) as u64 + 1) as usize;
+        return DataDesc::Padded { seed: r.next_u64(), len, pad_at, pad_len, pattern };
+    }
     match r.below(100) {
         0..=44 => DataDesc::Random { seed: r.next_u64(), len },
         45..=59 => DataDesc::Alphabet { seed: r.next_u64(), alpha: r.range(1, 4) as u8, len },
